@@ -43,12 +43,13 @@ class Likelihood:
 
     def __init__(self, kind, blob=None, vectorized=False):
         self.kind, self.blob, self.vectorized = kind, blob, vectorized
+        self.offset = 0      # serial number of the first call (set when a computation is resumed)
         self.calls = []      # (argument bytes, logl)
         self.batches = []    # number of points per call group (only meaningful when vectorized)
 
     def one(self, x):
         ll = logl_value(self.kind, x)
-        serial = len(self.calls)
+        serial = self.offset + len(self.calls)
         self.calls.append((np.asarray(x, dtype=float).tobytes(), ll))
         if self.blob is None:
             return ll
